@@ -2455,8 +2455,14 @@ def register_op(op_name, **kwargs):
     'get', 'iterate', 'keys', 'assign', and 'delete' to the default scope. 
     See TargetRegistry for more details.
     """
+    _EXTENSION_OPS[op_name] = kwargs
     _DEFAULT_SCOPE[TargetRegistry].register_op(op_name, **kwargs)
     return
+
+
+# ops added through the module-level register_op() above ('assign',
+# 'delete', ...), so that a new Glommer knows them like the default scope
+_EXTENSION_OPS = OrderedDict()
 
 
 class Glommer:
@@ -2491,6 +2497,8 @@ class Glommer:
         # this "freezes" the scope in at the time of construction
         self.scope = ChainMap(dict(scope))
         self.scope[TargetRegistry] = TargetRegistry(register_default_types=register_default_types)
+        for op_name, op_kwargs in _EXTENSION_OPS.items():
+            self.scope[TargetRegistry].register_op(op_name, **op_kwargs)
 
     def register(self, target_type, **kwargs):
         """Register *target_type* so :meth:`~Glommer.glom()` will
